@@ -162,7 +162,7 @@ class Bringup(Harness):
             ctx.check(r5[0] == "ok", "command after renegotiation failed with %s" % r5[0], "command-after-renegotiation")
             bad = [q for q in ncp.requests if q[5] in ("ignored-wrong-framing", "version-not-set", "garbage")]
             ctx.check(not bad, "NCP v%d received a request it cannot accept after the second reset (%s)" % (V, bad[0][5] if bad else ""), "wrongly-framed-request")
-            ctx.observe(V, path, sp, code, r[0], round(r[1], 3), [(w[1], w[3]) for w in data_reqs[:3]], type(ez._protocol).VERSION)
+            ctx.observe(V, path, sp, code, r[0], round(r[1], 1), [(w[1], w[3]) for w in data_reqs[:3]], type(ez._protocol).VERSION)
 
         vloop.run(main)
 
